@@ -430,6 +430,18 @@ class Translator:
                 if len(node.args) != 2 or node.keywords:
                     raise Skip('isinstance shape')
                 return f'(.builtin .isinstance [{self.expr(node.args[0])}, {self.expr(node.args[1])}])'
+            if f.id == 'sorted':
+                rev = False
+                for k in node.keywords:
+                    if k.arg == 'reverse' and isinstance(k.value, ast.Constant) and type(k.value.value) is bool:
+                        rev = k.value.value
+                    else:
+                        raise Skip('sorted() with key= / a computed reverse=')
+                if len(node.args) != 1:
+                    raise Skip('sorted shape')
+                return f'(.builtin .{"sortedDesc" if rev else "sorted"} [{self.expr(node.args[0])}])'
+            if f.id == 'dict' and not node.args and not node.keywords:
+                return '(.dictOf [])'
             if f.id in BUILTINS:
                 if node.keywords:
                     raise Skip(f'{f.id} with keywords')
@@ -472,6 +484,12 @@ class Translator:
                         raise Skip(f'mutating method {f.attr} used in an expression')
                     args = self.args_for(r[1][0].args, None, node, cname, skip_first=1, what=f.attr)
                     return f'(.meth {self.expr(f.value)} {self.ident(f.attr)} {self.elist(args)})'
+            if f.attr == 'join' and isinstance(f.value, ast.Constant) and isinstance(f.value.value, str) \
+                    and len(node.args) == 1 and not node.keywords:
+                return f'(.builtin .join [{self.expr(f.value)}, {self.expr(node.args[0])}])'
+            if f.attr == 'items' and not node.args and not node.keywords \
+                    and not any('items' in ci.methods for ci in self.classes.values()):
+                return f'(.builtin .items [{self.expr(f.value)}])'
             if f.attr in ('append', 'add', 'remove', 'items', 'keys', 'values', 'lower', 'upper', 'replace', 'split', 'join',
                           'format', 'strip', 'copy', 'get', 'pop', 'extend', 'sort'):
                 raise Skip(f'container / string method .{f.attr}() in an expression')
